@@ -505,7 +505,7 @@ fn choices(m: &M, r: &mut Rng, th: bool) -> Vec<Choice> {
             }
         }
         M::Data => {
-            for n in [0usize, 1, 63, 64, if th { 900 } else { 300 }] {
+            for n in [0usize, 1, 63, 64, 300, 899, 900, 901, 1024, 1390, 4000] {
                 let d = r.bytes(n);
                 let mut b = vint(n as i32);
                 b.extend(&d);
